@@ -5,6 +5,7 @@
 // v<argc> = Interpolation(xs, ys[, x_dim[, f_dim]]), r<argc> = Interpolation(rows[, x_dim[, f_dim]]),
 // g<argc> = Interpolation_2D(xs, ys, f[, x_dim[, y_dim[, f_dim]]]), t<argc> = Interpolation_2D(rows (x,y,f)[, ...]);
 // argc = number of unit arguments passed explicitly (the others are left to the default arguments).
+// h1 / h2: one object and its copies; s1 / s2: sessions of several objects holding several tables (see `session` below).
 // Case grammar and output tokens: see checks/C09.py.
 #include "common.hpp"
 #include "libphysica/Numerics.hpp"
@@ -52,133 +53,148 @@ struct Maker1
 			return Interpolation(xs, ys, c.dim[0]);
 		return Interpolation(xs, ys, c.dim[0], c.dim[1]);
 	}
+	bool read(vh::Reader& r)
+	{
+		if(!c.read(r, 2) || (c.kind != 'v' && c.kind != 'r'))
+			return false;
+		xs = r.list();
+		ys = r.list();
+		if(c.kind == 'r')
+			for(size_t i = 0; i < xs.size() && i < ys.size(); i++)
+				rows.push_back({xs[i], ys[i]});
+		return true;
+	}
 };
 
-static void one_d(vh::Reader& r, vh::Out& o)
+// one member call `w` on the object cur (built by mk, prefactor pf so far); 0 = not a member call, 1 = done, -1 = harness error
+static int query1(const std::string& w, vh::Reader& r, vh::Out& o, Interpolation* cur, double& pf, const Maker1& mk)
 {
-	Maker1 mk;
-	if(!mk.c.read(r, 2) || (mk.c.kind != 'v' && mk.c.kind != 'r'))
-	{
-		o.w("HARNESSERR ctor");
-		return;
-	}
-	mk.xs = r.list();
-	mk.ys = r.list();
-	if(mk.c.kind == 'r')
-		for(size_t i = 0; i < mk.xs.size() && i < mk.ys.size(); i++)
-			mk.rows.push_back({mk.xs[i], mk.ys[i]});
-	long nops = r.integer();
-	std::unique_ptr<Interpolation> cur(new Interpolation(mk.make()));
-	std::vector<std::pair<std::unique_ptr<Interpolation>, double>> stack;
-	double pf = 1.0;   // the prefactor the calls so far should have left behind
 	auto fresh = [&]() {
 		Interpolation f = mk.make();
 		f.Set_Prefactor(pf);
 		return f;
 	};
+	if(w == "L")
+	{
+		double x	   = r.num();
+		unsigned int j = cur->Locate(x);
+		Interpolation f = fresh();
+		o.i(j);
+		o.i(f.Locate(x));
+	}
+	else if(w == "I" || w == "O")
+	{
+		double x = r.num();
+		double v = (w == "I") ? cur->Interpolate(x) : (*cur)(x);
+		Interpolation f = fresh();
+		Interpolation b = mk.make();
+		o.f(v);
+		o.f((w == "I") ? f.Interpolate(x) : f(x));
+		o.f((w == "I") ? b.Interpolate(x) : b(x));
+	}
+	else if(w == "D")
+	{
+		double x = r.num();
+		long d	 = r.integer();
+		double v = cur->Derivative(x, (unsigned int) d);
+		Interpolation f = fresh();
+		Interpolation b = mk.make();
+		o.f(v);
+		o.f(f.Derivative(x, (unsigned int) d));
+		o.f(b.Derivative(x, (unsigned int) d));
+	}
+	else if(w == "d")	// the default argument of Derivative
+	{
+		double x = r.num();
+		double v = cur->Derivative(x);
+		Interpolation f = fresh();
+		Interpolation b = mk.make();
+		o.f(v);
+		o.f(f.Derivative(x));
+		o.f(b.Derivative(x, 1u));	// what the default argument stands for: the first derivative
+	}
+	else if(w == "G" || w == "m" || w == "M")
+	{
+		double a = r.num(), b = r.num();
+		Interpolation f = fresh();
+		Interpolation b1 = mk.make(), b2 = mk.make();
+		if(w == "G")
+		{
+			o.f(cur->Integrate(a, b));
+			o.f(f.Integrate(a, b));
+			o.f(b1.Integrate(a, b));
+		}
+		else
+		{
+			o.f(w == "m" ? cur->Local_Minimum(a, b) : cur->Local_Maximum(a, b));
+			o.f(w == "m" ? f.Local_Minimum(a, b) : f.Local_Maximum(a, b));
+			o.f(b1.Local_Minimum(a, b));
+			o.f(b2.Local_Maximum(a, b));
+		}
+	}
+	else if(w == "gm" || w == "gM")
+	{
+		Interpolation f = fresh();
+		Interpolation b1 = mk.make(), b2 = mk.make();
+		o.f(w == "gm" ? cur->Global_Minimum() : cur->Global_Maximum());
+		o.f(w == "gm" ? f.Global_Minimum() : f.Global_Maximum());
+		o.f(b1.Global_Minimum());
+		o.f(b2.Global_Maximum());
+	}
+	else if(w == "Q")	// the public data member domain
+	{
+		if(cur->domain.size() != 2)
+		{
+			o.w("HARNESSERR domain_size");
+			return -1;
+		}
+		o.f(cur->domain[0]);
+		o.f(cur->domain[1]);
+	}
+	else if(w == "P")
+	{
+		double f = r.num();
+		cur->Set_Prefactor(f);
+		pf = f;
+		o.f(pf);
+	}
+	else if(w == "U")
+	{
+		double f = r.num();
+		cur->Multiply(f);
+		pf *= f;
+		o.f(pf);
+	}
+	else
+		return 0;
+	return 1;
+}
+
+// C / A / R of the single-object histories: continue on a copy, the original is kept unchanged until R returns to it
+template <class Obj, class Maker, class Query>
+static void history(vh::Reader& r, vh::Out& o, const Maker& mk, Query query)
+{
+	long nops = r.integer();
+	std::unique_ptr<Obj> cur(new Obj(mk.make()));
+	std::vector<std::pair<std::unique_ptr<Obj>, double>> stack;
+	double pf = 1.0;   // the prefactor the calls so far should have left behind
 	for(long k = 0; k < nops; k++)
 	{
 		std::string w = r.word();
-		if(w == "L")
+		int q		  = query(w, r, o, cur.get(), pf, mk);
+		if(q < 0)
+			return;
+		if(q > 0)
+			continue;
+		if(w == "C")   // continue on a copy-constructed object, keep the original
 		{
-			double x	   = r.num();
-			unsigned int j = cur->Locate(x);
-			Interpolation f = fresh();
-			o.i(j);
-			o.i(f.Locate(x));
-		}
-		else if(w == "I" || w == "O")
-		{
-			double x = r.num();
-			double v = (w == "I") ? cur->Interpolate(x) : (*cur)(x);
-			Interpolation f = fresh();
-			Interpolation b = mk.make();
-			o.f(v);
-			o.f((w == "I") ? f.Interpolate(x) : f(x));
-			o.f((w == "I") ? b.Interpolate(x) : b(x));
-		}
-		else if(w == "D")
-		{
-			double x = r.num();
-			long d	 = r.integer();
-			double v = cur->Derivative(x, (unsigned int) d);
-			Interpolation f = fresh();
-			Interpolation b = mk.make();
-			o.f(v);
-			o.f(f.Derivative(x, (unsigned int) d));
-			o.f(b.Derivative(x, (unsigned int) d));
-		}
-		else if(w == "d")	// the default argument of Derivative
-		{
-			double x = r.num();
-			double v = cur->Derivative(x);
-			Interpolation f = fresh();
-			Interpolation b = mk.make();
-			o.f(v);
-			o.f(f.Derivative(x));
-			o.f(b.Derivative(x, 1u));	// what the default argument stands for: the first derivative
-		}
-		else if(w == "G" || w == "m" || w == "M")
-		{
-			double a = r.num(), b = r.num();
-			Interpolation f = fresh();
-			Interpolation b1 = mk.make(), b2 = mk.make();
-			if(w == "G")
-			{
-				o.f(cur->Integrate(a, b));
-				o.f(f.Integrate(a, b));
-				o.f(b1.Integrate(a, b));
-			}
-			else
-			{
-				o.f(w == "m" ? cur->Local_Minimum(a, b) : cur->Local_Maximum(a, b));
-				o.f(w == "m" ? f.Local_Minimum(a, b) : f.Local_Maximum(a, b));
-				o.f(b1.Local_Minimum(a, b));
-				o.f(b2.Local_Maximum(a, b));
-			}
-		}
-		else if(w == "gm" || w == "gM")
-		{
-			Interpolation f = fresh();
-			Interpolation b1 = mk.make(), b2 = mk.make();
-			o.f(w == "gm" ? cur->Global_Minimum() : cur->Global_Maximum());
-			o.f(w == "gm" ? f.Global_Minimum() : f.Global_Maximum());
-			o.f(b1.Global_Minimum());
-			o.f(b2.Global_Maximum());
-		}
-		else if(w == "Q")	// the public data member domain
-		{
-			if(cur->domain.size() != 2)
-			{
-				o.w("HARNESSERR domain_size");
-				return;
-			}
-			o.f(cur->domain[0]);
-			o.f(cur->domain[1]);
-		}
-		else if(w == "P")
-		{
-			double f = r.num();
-			cur->Set_Prefactor(f);
-			pf = f;
-			o.f(pf);
-		}
-		else if(w == "U")
-		{
-			double f = r.num();
-			cur->Multiply(f);
-			pf *= f;
-			o.f(pf);
-		}
-		else if(w == "C")   // continue on a copy-constructed object, keep the original
-		{
-			std::unique_ptr<Interpolation> cp(new Interpolation(*cur));
+			std::unique_ptr<Obj> cp(new Obj(*cur));
 			stack.emplace_back(std::move(cur), pf);
 			cur = std::move(cp);
 		}
 		else if(w == "A")   // continue on a default-constructed object that was assigned to
 		{
-			std::unique_ptr<Interpolation> cp(new Interpolation());
+			std::unique_ptr<Obj> cp(new Obj());
 			*cp = *cur;
 			stack.emplace_back(std::move(cur), pf);
 			cur = std::move(cp);
@@ -198,6 +214,139 @@ static void one_d(vh::Reader& r, vh::Out& o)
 			return;
 		}
 	}
+}
+
+// Sessions: several tables, several objects alive in one process (slots 0..7; slot 0 starts as an object of table 0, it is the
+// current one).  Besides the member calls on the current object:
+//   S k      the object in slot k becomes the current one
+//   N k t    the object in slot k is destroyed (if any), then a new object of table t is constructed there
+//   V k t    *slot k = Obj(table t ...)            assignment from a temporary (an empty slot is default-constructed first)
+//   W k t    { Obj tmp(table t ...); *slot k = tmp; }   copy assignment from a third object, which is destroyed right away
+//   K a b    the object in slot b is destroyed (if any), then slot b = new Obj(*slot a)   copy construction
+//   E a b    *slot b = *slot a                      copy assignment in place (an empty slot is default-constructed first)
+//   Z a b    std::swap(*slot a, *slot b)
+//   X k      the object in slot k is destroyed
+// Every query is answered by the current object and by fresh objects of the table the current object should hold by now.
+template <class Obj, class Maker, class Query>
+static void session(vh::Reader& r, vh::Out& o, Query query)
+{
+	long ntab = r.integer();
+	if(ntab < 1 || ntab > 8)
+	{
+		o.w("HARNESSERR tables");
+		return;
+	}
+	std::vector<Maker> mk(ntab);
+	for(auto& m : mk)
+		if(!m.read(r))
+		{
+			o.w("HARNESSERR ctor");
+			return;
+		}
+	const int S = 8;
+	std::unique_ptr<Obj> slot[S];
+	int tab[S]	  = {0};
+	double pf[S]  = {0};
+	slot[0].reset(new Obj(mk[0].make()));
+	pf[0]	  = 1.0;
+	int cur	  = 0;
+	long nops = r.integer();
+	auto sl	  = [&](long k) { return k >= 0 && k < S; };
+	for(long n = 0; n < nops; n++)
+	{
+		std::string w = r.word();
+		int q		  = query(w, r, o, slot[cur].get(), pf[cur], mk[tab[cur]]);
+		if(q < 0)
+			return;
+		if(q > 0)
+			continue;
+		if(w == "S" || w == "X")
+		{
+			long k = r.integer();
+			if(!sl(k) || !slot[k] || (w == "X" && k == cur))
+			{
+				o.w("HARNESSERR slot");
+				return;
+			}
+			if(w == "S")
+				cur = (int) k;
+			else
+				slot[k].reset();
+		}
+		else if(w == "N" || w == "V" || w == "W")
+		{
+			long k = r.integer(), t = r.integer();
+			if(!sl(k) || t < 0 || t >= ntab)
+			{
+				o.w("HARNESSERR slot");
+				return;
+			}
+			if(w == "N")
+			{
+				slot[k].reset();
+				slot[k].reset(new Obj(mk[t].make()));
+			}
+			else
+			{
+				if(!slot[k])
+					slot[k].reset(new Obj());
+				if(w == "V")
+					*slot[k] = mk[t].make();
+				else
+				{
+					Obj tmp	 = mk[t].make();
+					*slot[k] = tmp;
+				}
+			}
+			tab[k] = (int) t;
+			pf[k]  = 1.0;
+		}
+		else if(w == "K" || w == "E" || w == "Z")
+		{
+			long a = r.integer(), b = r.integer();
+			if(!sl(a) || !sl(b) || !slot[a] || (w == "Z" && !slot[b]) || (w == "K" && a == b))
+			{
+				o.w("HARNESSERR slot");
+				return;
+			}
+			if(w == "Z")
+			{
+				std::swap(*slot[a], *slot[b]);
+				std::swap(tab[a], tab[b]);
+				std::swap(pf[a], pf[b]);
+				continue;
+			}
+			if(w == "K")
+			{
+				slot[b].reset();
+				slot[b].reset(new Obj(*slot[a]));
+			}
+			else
+			{
+				if(!slot[b])
+					slot[b].reset(new Obj());
+				*slot[b] = *slot[a];
+			}
+			tab[b] = tab[a];
+			pf[b]  = pf[a];
+		}
+		else
+		{
+			o.w("HARNESSERR unknown_op");
+			return;
+		}
+	}
+}
+
+static void one_d(vh::Reader& r, vh::Out& o)
+{
+	Maker1 mk;
+	if(!mk.read(r))
+	{
+		o.w("HARNESSERR ctor");
+		return;
+	}
+	history<Interpolation>(r, o, mk, query1);
 }
 
 struct Maker2
@@ -225,111 +374,90 @@ struct Maker2
 			return Interpolation_2D(xs, ys, f, c.dim[0], c.dim[1]);
 		return Interpolation_2D(xs, ys, f, c.dim[0], c.dim[1], c.dim[2]);
 	}
+	bool read(vh::Reader& r)
+	{
+		if(!c.read(r, 3) || (c.kind != 'g' && c.kind != 't'))
+			return false;
+		xs = r.list();
+		ys = r.list();
+		f.assign(xs.size(), std::vector<double>(ys.size()));
+		for(auto& row : f)
+			for(auto& v : row)
+				v = r.num();
+		if(c.kind == 't')
+			for(size_t i = 0; i < xs.size(); i++)
+				for(size_t j = 0; j < ys.size(); j++)
+					rows.push_back({xs[i], ys[j], f[i][j]});
+		return true;
+	}
 };
 
-static void two_d(vh::Reader& r, vh::Out& o)
+static int query2(const std::string& w, vh::Reader& r, vh::Out& o, Interpolation_2D* cur, double& pf, const Maker2& mk)
 {
-	Maker2 mk;
-	if(!mk.c.read(r, 3) || (mk.c.kind != 'g' && mk.c.kind != 't'))
-	{
-		o.w("HARNESSERR ctor");
-		return;
-	}
-	mk.xs = r.list();
-	mk.ys = r.list();
-	mk.f.assign(mk.xs.size(), std::vector<double>(mk.ys.size()));
-	for(auto& row : mk.f)
-		for(auto& v : row)
-			v = r.num();
-	if(mk.c.kind == 't')
-		for(size_t i = 0; i < mk.xs.size(); i++)
-			for(size_t j = 0; j < mk.ys.size(); j++)
-				mk.rows.push_back({mk.xs[i], mk.ys[j], mk.f[i][j]});
-	long nops = r.integer();
-	std::unique_ptr<Interpolation_2D> cur(new Interpolation_2D(mk.make()));
-	std::vector<std::pair<std::unique_ptr<Interpolation_2D>, double>> stack;
-	double pf = 1.0;
 	auto fresh = [&]() {
 		Interpolation_2D g = mk.make();
 		g.Set_Prefactor(pf);
 		return g;
 	};
-	for(long k = 0; k < nops; k++)
+	if(w == "I" || w == "O")
 	{
-		std::string w = r.word();
-		if(w == "I" || w == "O")
-		{
-			double x = r.num(), y = r.num();
-			double v = (w == "I") ? cur->Interpolate(x, y) : (*cur)(x, y);
-			Interpolation_2D g = fresh();
-			Interpolation_2D b = mk.make();
-			o.f(v);
-			o.f((w == "I") ? g.Interpolate(x, y) : g(x, y));
-			o.f((w == "I") ? b.Interpolate(x, y) : b(x, y));
-		}
-		else if(w == "gm" || w == "gM")
-		{
-			Interpolation_2D g = fresh();
-			Interpolation_2D b = mk.make();
-			o.f(w == "gm" ? cur->Global_Minimum() : cur->Global_Maximum());
-			o.f(w == "gm" ? g.Global_Minimum() : g.Global_Maximum());
-			o.f(b.Global_Minimum());
-			o.f(b.Global_Maximum());
-		}
-		else if(w == "Q")
-		{
-			if(cur->domain.size() != 2 || cur->domain[0].size() != 2 || cur->domain[1].size() != 2)
-			{
-				o.w("HARNESSERR domain_size");
-				return;
-			}
-			o.f(cur->domain[0][0]);
-			o.f(cur->domain[0][1]);
-			o.f(cur->domain[1][0]);
-			o.f(cur->domain[1][1]);
-		}
-		else if(w == "P")
-		{
-			double c = r.num();
-			cur->Set_Prefactor(c);
-			pf = c;
-			o.f(pf);
-		}
-		else if(w == "U")
-		{
-			double c = r.num();
-			cur->Multiply(c);
-			pf *= c;
-			o.f(pf);
-		}
-		else if(w == "C")
-		{
-			std::unique_ptr<Interpolation_2D> cp(new Interpolation_2D(*cur));
-			stack.emplace_back(std::move(cur), pf);
-			cur = std::move(cp);
-		}
-		else if(w == "A")
-		{
-			std::unique_ptr<Interpolation_2D> cp(new Interpolation_2D());
-			*cp = *cur;
-			stack.emplace_back(std::move(cur), pf);
-			cur = std::move(cp);
-		}
-		else if(w == "R")
-		{
-			if(!stack.empty())
-			{
-				cur = std::move(stack.back().first);
-				pf	= stack.back().second;
-				stack.pop_back();
-			}
-		}
-		else
-		{
-			o.w("HARNESSERR unknown_op");
-			return;
-		}
+		double x = r.num(), y = r.num();
+		double v = (w == "I") ? cur->Interpolate(x, y) : (*cur)(x, y);
+		Interpolation_2D g = fresh();
+		Interpolation_2D b = mk.make();
+		o.f(v);
+		o.f((w == "I") ? g.Interpolate(x, y) : g(x, y));
+		o.f((w == "I") ? b.Interpolate(x, y) : b(x, y));
 	}
+	else if(w == "gm" || w == "gM")
+	{
+		Interpolation_2D g = fresh();
+		Interpolation_2D b = mk.make();
+		o.f(w == "gm" ? cur->Global_Minimum() : cur->Global_Maximum());
+		o.f(w == "gm" ? g.Global_Minimum() : g.Global_Maximum());
+		o.f(b.Global_Minimum());
+		o.f(b.Global_Maximum());
+	}
+	else if(w == "Q")
+	{
+		if(cur->domain.size() != 2 || cur->domain[0].size() != 2 || cur->domain[1].size() != 2)
+		{
+			o.w("HARNESSERR domain_size");
+			return -1;
+		}
+		o.f(cur->domain[0][0]);
+		o.f(cur->domain[0][1]);
+		o.f(cur->domain[1][0]);
+		o.f(cur->domain[1][1]);
+	}
+	else if(w == "P")
+	{
+		double c = r.num();
+		cur->Set_Prefactor(c);
+		pf = c;
+		o.f(pf);
+	}
+	else if(w == "U")
+	{
+		double c = r.num();
+		cur->Multiply(c);
+		pf *= c;
+		o.f(pf);
+	}
+	else
+		return 0;
+	return 1;
+}
+
+static void two_d(vh::Reader& r, vh::Out& o)
+{
+	Maker2 mk;
+	if(!mk.read(r))
+	{
+		o.w("HARNESSERR ctor");
+		return;
+	}
+	history<Interpolation_2D>(r, o, mk, query2);
 }
 
 static void handler(vh::Reader& r, vh::Out& o)
@@ -339,6 +467,10 @@ static void handler(vh::Reader& r, vh::Out& o)
 		one_d(r, o);
 	else if(op == "h2")
 		two_d(r, o);
+	else if(op == "s1")
+		session<Interpolation, Maker1>(r, o, query1);
+	else if(op == "s2")
+		session<Interpolation_2D, Maker2>(r, o, query2);
 	else
 		o.w("HARNESSERR unknown_case");
 }
